@@ -755,6 +755,8 @@ class Sim:
             if rv["op"] == "Neg":
                 if is_float_ty(ta) or (isinstance(a, Const) and isinstance(a.val, float)):
                     return Term("Neg", (a,), ta)
+                if not isinstance(a, Const):
+                    st.arith.append(("Neg", repr(a), ""))      # integer negation overflows for MIN: part of the arithmetic footprint
                 return int_neg(a, ta)
             if rv["op"] == "PtrMetadata":
                 return self.ptr_len(st, a)
@@ -990,6 +992,7 @@ class Sim:
 
     BUILTIN_BIN = {"add": "Add", "sub": "Sub", "mul": "Mul", "div": "Div"}
     BUILTIN_ASSIGN = {"add_assign": "Add", "sub_assign": "Sub", "mul_assign": "Mul", "div_assign": "Div"}
+    OTHER_BIN = {"Rem": "rem", "BitAnd": "bitand", "BitOr": "bitor", "BitXor": "bitxor", "Shl": "shl", "Shr": "shr"}
 
     def builtin_op(self, st, fnj, gargs, args, ret_ty):
         name = fnj["name"]
@@ -997,6 +1000,12 @@ class Sim:
         tr = fnj["trait"].split("::")[-1]
         if tr in ("Add", "Sub", "Mul", "Div") and name in self.BUILTIN_BIN:
             return self.binop(st, self.BUILTIN_BIN[name], args[0], args[1], t, ret_ty)
+        if tr in self.OTHER_BIN and name == self.OTHER_BIN[tr]:
+            return Term(tr, (self.resolve(st, args[0]), self.resolve(st, args[1])), ret_ty)
+        if tr.endswith("Assign") and tr[:-6] in self.OTHER_BIN and name == self.OTHER_BIN[tr[:-6]] + "_assign":
+            p = self.deref_value(st, args[0])
+            self.write(st, p, Term(tr[:-6], (self.resolve(st, self.read(st, p)), self.resolve(st, args[1])), t))
+            return UNIT
         if tr.endswith("Assign") and name in self.BUILTIN_ASSIGN:
             p = self.deref_value(st, args[0])
             self.write(st, p, self.binop(st, self.BUILTIN_ASSIGN[name], self.read(st, p), args[1], t, t))
